@@ -68,4 +68,5 @@ run C28 && mut C28 protocol/lavasession/consumer_types.go '	cswp.Lock.Lock()
 	}
 	cswp.Lock.Lock()
 	defer cswp.Lock.Unlock()'
+run C40 && mut C40 x/pairing/keeper/scores/score.go 'if randomValue <= newScoreSum.RoundInt64() {' 'if randomValue < newScoreSum.RoundInt64() {'
 exit 0
